@@ -2,6 +2,7 @@ package ast
 
 import (
 	"fmt"
+	"strconv"
 	"strings"
 
 	"github.com/smarthome-go/homescript/v3/homescript/errors"
@@ -71,12 +72,15 @@ type FloatLiteralExpression struct {
 func (self FloatLiteralExpression) Kind() ExpressionKind { return FloatLiteralExpressionKind }
 func (self FloatLiteralExpression) Span() errors.Span    { return self.Range }
 func (self FloatLiteralExpression) String() string {
-	// If the float can be replresented as an int without loss, the 'f' extension is forced.
-	if float64(int64(self.Value)) == self.Value {
-		return fmt.Sprintf("%df", int64(self.Value))
+	// The lexer does not know exponents: always use the plain decimal notation.
+	str := strconv.FormatFloat(self.Value, 'f', -1, 64)
+
+	// If the float has no fractional part, the 'f' extension is forced.
+	if !strings.Contains(str, ".") {
+		str += "f"
 	}
 
-	return fmt.Sprint(self.Value)
+	return str
 }
 
 //
